@@ -13,9 +13,13 @@ Vocabulary (AlgLemmas): `dim db qt es` = sum of the exponents of the categories 
 of the quantity type of its category; `ScaleOnlyQ db q` = no unit of `q` has an offset (the property speaks
 about scale-only units); `Scales db q1 q2` = the right operand is not of the simple shape (one entry with
 exponent 1) or neither operand has a unit with an offset: then the matching scales (since the repair of
-`_ConvertMatchingExp` every entry of a derived operand is scaled, offsets or not); `unitTotal u es` = the joined exponent of unit `u`.
+`_ConvertMatchingExp` every entry of a derived operand is scaled, offsets or not); `unitTotal u es` = the joined exponent of unit `u`;
+`typeExps db es` (Model/AlgType.lean) = `rep_and_exp` of `Quantity.__init__`, the list the quantity-type string
+(`GetQuantityType()`) is written from; `expOf qt l` = the exponent that list holds for `qt`; `reportedTypes` = its
+entries with a non-zero exponent (what `_MakeStr` writes).
 -/
 import Barril.Proofs.AlgLemmas
+import Barril.Proofs.AlgTypeLemmas
 import Barril.Props.C01
 
 namespace Barril.Alg
@@ -268,6 +272,61 @@ theorem posc_mul_mag {q1 q2 q : Quantity} {v1 v2 v : Rat} (h1 : Known poscDb q1)
 theorem posc_div_mag {q1 q2 q : Quantity} {v1 v2 v : Rat} (h1 : Known poscDb q1) (h2 : Known poscDb q2)
     (hs : Scales poscDb q1 q2) (h : opNew poscDb .div q1 q2 v1 v2 = .ok (q, v)) :
     baseMag poscDb q v = baseMag poscDb q1 v1 / baseMag poscDb q2 v2 := div_mag posc_allWF h1 h2 hs h
+
+/-! ### the exponent per quantity type as the result REPORTS it (its quantity-type string)
+
+The Array operators apply the same per-number functions element by element (C10's theorems); nothing here depends
+on the container. -/
+
+/-- **the list the quantity-type string is written from holds, for every quantity type, exactly `dim`**: the sum
+of the exponents of ALL categories of that type (two categories of one type are added, not overwritten) -/
+theorem reported_type_exponent_eq_dim {db : Db} {es : List Entry} {l : List (Sym × Int)}
+    (h : typeExps db es = .ok l) (qt : Sym) : expOf qt l = dim db qt es := by
+  have := typeExpsFrom_expOf qt es [] l h
+  simpa [expOf] using this
+
+/-- every quantity type is listed at most once -/
+theorem reported_types_distinct {db : Db} {es : List Entry} {l : List (Sym × Int)}
+    (h : typeExps db es = .ok l) : (l.map Prod.fst).Nodup :=
+  typeExpsFrom_keysNodup es [] l (by simp [KeysNodup]) h
+
+/-- **what is written: exactly the quantity types whose `dim` is not 0, each with its `dim`** -/
+theorem reported_types_iff {db : Db} {es : List Entry} {r : List (Sym × Int)}
+    (h : reportedTypes db es = .ok r) (qt : Sym) (x : Int) :
+    (qt, x) ∈ r ↔ x = dim db qt es ∧ x ≠ 0 := by
+  unfold reportedTypes at h
+  cases hl : typeExps db es with
+  | error e => rw [hl] at h; cases h
+  | ok l =>
+    rw [hl] at h
+    cases h
+    have hn : KeysNodup l := typeExpsFrom_keysNodup es [] l (by simp [KeysNodup]) hl
+    have hd := reported_type_exponent_eq_dim hl qt
+    simp only [List.mem_filter, Bool.not_eq_true', beq_eq_false_iff_ne, ne_eq]
+    constructor
+    · rintro ⟨hm, hx⟩
+      exact ⟨by rw [← hd, expOf_of_mem hn hm], hx⟩
+    · rintro ⟨hx, h0⟩
+      refine ⟨?_, h0⟩
+      subst hx
+      rw [← hd] at h0 ⊢
+      exact mem_of_expOf_ne_zero h0
+
+/-- **a*b reports, for every quantity type, the sum of what the operands report** -/
+theorem mul_reported_types {db : Db} (hdb : db.AllWF) {q1 q2 q : Quantity} {v1 v2 v : Rat}
+    (h1 : Known db q1) (h2 : Known db q2) (h : opNew db .mul q1 q2 v1 v2 = .ok (q, v))
+    {l1 l2 l : List (Sym × Int)} (t1 : typeExps db q1.entries = .ok l1) (t2 : typeExps db q2.entries = .ok l2)
+    (t : typeExps db q.entries = .ok l) (qt : Sym) : expOf qt l = expOf qt l1 + expOf qt l2 := by
+  rw [reported_type_exponent_eq_dim t, reported_type_exponent_eq_dim t1, reported_type_exponent_eq_dim t2]
+  exact mul_dim hdb h1 h2 h qt
+
+/-- **a/b reports … the difference** -/
+theorem div_reported_types {db : Db} (hdb : db.AllWF) {q1 q2 q : Quantity} {v1 v2 v : Rat}
+    (h1 : Known db q1) (h2 : Known db q2) (h : opNew db .div q1 q2 v1 v2 = .ok (q, v))
+    {l1 l2 l : List (Sym × Int)} (t1 : typeExps db q1.entries = .ok l1) (t2 : typeExps db q2.entries = .ok l2)
+    (t : typeExps db q.entries = .ok l) (qt : Sym) : expOf qt l = expOf qt l1 - expOf qt l2 := by
+  rw [reported_type_exponent_eq_dim t, reported_type_exponent_eq_dim t1, reported_type_exponent_eq_dim t2]
+  exact div_dim hdb h1 h2 h qt
 
 /-! ### non-vacuity: concrete operands of the POSC table meet the hypotheses; the model computes what the
 repaired code computes (exponent honoured by the matching, both operand orders) -/
